@@ -18,6 +18,7 @@ EXPLANATION = (
     "unconditionally in their arm, and return Err; (PURITY-UNIFY) sub_unify rejects exactly (Pure,Impure) and (Impure,Pure); "
     "function literals record Pure/Impure from `pu`/`fn`, annotations Pure/Undefined; copying a function type keeps its purity."
     ' (PURITY-UNIFY merge/external) the purity a wildcard meets is written to both unified nodes, and an external declared `fn` is impure.'
+    " (PURITY-UNIFY external) the conversion of an external's `fn` to impure depends on the declared type only; (PURITY-DECL callbacks) a `pu` external takes `pu` callbacks."
 )
 UNDECIDED = "purity through `external` declarations (trusted annotations) and completeness for callees of Undefined purity."
 
